@@ -453,5 +453,5 @@ def run(ctx):
         for c in cases:
             yield {"prog": c["prog"], "steps": c["steps"]}
 
-    run_systematic(ctx, strip(distinct_step_cases(ctx.shard, ctx.nshards, names, None, params=(0, 1) if quick else (0, 1, 2, 5, 7), extra=[0])), guarded(ctx, chk), keep_one_in=4 if quick else 1, label="template-single-steps", presharded=True)
+    run_systematic(ctx, strip(distinct_step_cases(ctx.shard, ctx.nshards, names, None, params=(0, 1, 2, 3) if quick else (0, 1, 2, 3, 5, 7), extra=[0])), guarded(ctx, chk), keep_one_in=8 if quick else 1, label="template-single-steps", presharded=True)
     run_cases(ctx, case_strategy(6 if ctx.tier == "quick" else 12, names), guarded(ctx, chk), ctx.budget(800, 6400))
